@@ -24,13 +24,17 @@ structure AAcct where
   upd : Val
   md : Kvs
 
-structure AAcctMeta where
+/-- a row of a revision table (`accounts_metadata` / `transactions_metadata`): `base` is the `seq` of the row it is a revision of -/
+structure AMeta where
   seq : Nat
   ledger : String
-  acctSeq : Nat
+  base : Nat
   md : Kvs
   revision : Val
   date : Val
+
+abbrev AAcctMeta := AMeta
+abbrev ATxMeta := AMeta
 
 structure ATx where
   seq : Nat
@@ -45,14 +49,6 @@ structure ATx where
   destinations : Val
   sourcesArrays : Val
   destinationsArrays : Val
-  md : Kvs
-
-structure ATxMeta where
-  seq : Nat
-  ledger : String
-  txSeq : Nat
-  revision : Val
-  date : Val
   md : Kvs
 
 structure AMove where
@@ -89,8 +85,8 @@ def AAcct.row (a : AAcct) : AccountsRow :=
   { seq := .int a.seq, ledger := .text a.ledger, address := .text a.address, address_array := addressArray (.text a.address),
     insertion_date := a.ins, updated_at := a.upd, metadata := .json (.obj a.md) }
 
-def AAcctMeta.row (h : AAcctMeta) : AccountsMetadataRow :=
-  { seq := .int h.seq, ledger := .text h.ledger, accounts_seq := .int h.acctSeq, metadata := .json (.obj h.md), revision := h.revision,
+def AMeta.rowA (h : AMeta) : AccountsMetadataRow :=
+  { seq := .int h.seq, ledger := .text h.ledger, accounts_seq := .int h.base, metadata := .json (.obj h.md), revision := h.revision,
     date := h.date }
 
 def ATx.row (t : ATx) : TransactionsRow :=
@@ -98,8 +94,8 @@ def ATx.row (t : ATx) : TransactionsRow :=
     updated_at := t.updatedAt, postings := t.postings, sources := t.sources, destinations := t.destinations,
     sources_arrays := t.sourcesArrays, destinations_arrays := t.destinationsArrays, metadata := .json (.obj t.md) }
 
-def ATxMeta.row (h : ATxMeta) : TransactionsMetadataRow :=
-  { seq := .int h.seq, ledger := .text h.ledger, transactions_seq := .int h.txSeq, revision := h.revision, date := h.date,
+def AMeta.rowT (h : AMeta) : TransactionsMetadataRow :=
+  { seq := .int h.seq, ledger := .text h.ledger, transactions_seq := .int h.base, revision := h.revision, date := h.date,
     metadata := .json (.obj h.md) }
 
 def AMove.row (m : AMove) : MovesRow :=
@@ -109,16 +105,16 @@ def AMove.row (m : AMove) : MovesRow :=
     post_commit_effective_volumes := .vol (.int m.pcevIn) (.int m.pcevOut), is_source := .bool m.isSource }
 
 def conc (A : ADB) : DB :=
-  { transactions := A.txs.map ATx.row, transactions_metadata := A.txMeta.map ATxMeta.row, accounts := A.accounts.map AAcct.row,
-    accounts_metadata := A.acctMeta.map AAcctMeta.row, moves := A.moves.map AMove.row, logs := A.logs,
+  { transactions := A.txs.map ATx.row, transactions_metadata := A.txMeta.map AMeta.rowT, accounts := A.accounts.map AAcct.row,
+    accounts_metadata := A.acctMeta.map AMeta.rowA, moves := A.moves.map AMove.row, logs := A.logs,
     transactions_seq := A.txSeq, transactions_metadata_seq := A.txMetaSeq, accounts_seq := A.acctSeq,
     accounts_metadata_seq := A.acctMetaSeq, moves_seq := A.movesSeq, logs_seq := A.logsSeq }
 
 theorem conc_empty : conc {} = {} := rfl
 @[simp] theorem conc_txs (A : ADB) : (conc A).transactions = A.txs.map ATx.row := rfl
-@[simp] theorem conc_txMeta (A : ADB) : (conc A).transactions_metadata = A.txMeta.map ATxMeta.row := rfl
+@[simp] theorem conc_txMeta (A : ADB) : (conc A).transactions_metadata = A.txMeta.map AMeta.rowT := rfl
 @[simp] theorem conc_accounts (A : ADB) : (conc A).accounts = A.accounts.map AAcct.row := rfl
-@[simp] theorem conc_acctMeta (A : ADB) : (conc A).accounts_metadata = A.acctMeta.map AAcctMeta.row := rfl
+@[simp] theorem conc_acctMeta (A : ADB) : (conc A).accounts_metadata = A.acctMeta.map AMeta.rowA := rfl
 @[simp] theorem conc_moves (A : ADB) : (conc A).moves = A.moves.map AMove.row := rfl
 @[simp] theorem conc_logs (A : ADB) : (conc A).logs = A.logs := rfl
 
@@ -128,15 +124,15 @@ def acctKey (l a : String) (r : AAcct) : Bool := r.ledger == l && r.address == a
 
 /-- the `insert_account` trigger: revision 1 -/
 def aAcctInsHist (A : ADB) (r : AAcct) : ADB :=
-  { A with acctMeta := A.acctMeta ++ [{ seq := A.acctMetaSeq, ledger := r.ledger, acctSeq := r.seq, md := r.md, revision := .int 1, date := r.ins }],
+  { A with acctMeta := A.acctMeta ++ [{ seq := A.acctMetaSeq, ledger := r.ledger, base := r.seq, md := r.md, revision := .int 1, date := r.ins }],
            acctMetaSeq := A.acctMetaSeq + 1 }
 
 def nextRevA (hs : List AAcctMeta) (s : Nat) : Val :=
-  col (selectFirst hs (fun h => Val.bool (h.acctSeq == s)) [{ get := fun h => h.revision, desc := true }]) (fun h => Val.add h.revision (.int 1))
+  col (selectFirst hs (fun h => Val.bool (h.base == s)) [{ get := fun h => h.revision, desc := true }]) (fun h => Val.add h.revision (.int 1))
 
 /-- the `update_account` trigger: next revision -/
 def aAcctUpdHist (A : ADB) (r : AAcct) : ADB :=
-  { A with acctMeta := A.acctMeta ++ [{ seq := A.acctMetaSeq, ledger := r.ledger, acctSeq := r.seq, md := r.md,
+  { A with acctMeta := A.acctMeta ++ [{ seq := A.acctMetaSeq, ledger := r.ledger, base := r.seq, md := r.md,
                                          revision := nextRevA A.acctMeta r.seq, date := r.upd }],
            acctMetaSeq := A.acctMetaSeq + 1 }
 
@@ -155,11 +151,11 @@ def aDeleteAccountMetadata (A : ADB) (l a k : String) (d : Val) : ADB :=
 
 theorem insert_account_hist_conc (A : ADB) (r : AAcct) :
     insert_account_metadata_history (conc A) r.row = conc (aAcctInsHist A r) := by
-  simp [insert_account_metadata_history, insert_accounts_metadata, Sql.insertRow, tbl_accounts_metadata, conc, aAcctInsHist, AAcctMeta.row, AAcct.row]
+  simp [insert_account_metadata_history, insert_accounts_metadata, Sql.insertRow, tbl_accounts_metadata, conc, aAcctInsHist, AMeta.rowA, AAcct.row]
 
 theorem update_account_hist_conc (A : ADB) (r : AAcct) :
     update_account_metadata_history (conc A) r.row = conc (aAcctUpdHist A r) := by
-  simp [update_account_metadata_history, insert_accounts_metadata, Sql.insertRow, tbl_accounts_metadata, conc, aAcctUpdHist, AAcctMeta.row, AAcct.row,
+  simp [update_account_metadata_history, insert_accounts_metadata, Sql.insertRow, tbl_accounts_metadata, conc, aAcctUpdHist, AMeta.rowA, AAcct.row,
     selectFirst_map, nextRevA]
 
 theorem fire_account_hist_conc (rows : List AAcct) (A : ADB) :
@@ -214,14 +210,14 @@ theorem delete_account_metadata_conc (A : ADB) (l a k : String) (d : Val) :
 -- ---------------------------------------------------------------- transactions
 
 def aTxInsHist (A : ADB) (r : ATx) : ADB :=
-  { A with txMeta := A.txMeta ++ [{ seq := A.txMetaSeq, ledger := r.ledger, txSeq := r.seq, revision := .int 1, date := .ts r.ts, md := r.md }],
+  { A with txMeta := A.txMeta ++ [{ seq := A.txMetaSeq, ledger := r.ledger, base := r.seq, revision := .int 1, date := .ts r.ts, md := r.md }],
            txMetaSeq := A.txMetaSeq + 1 }
 
 def nextRevT (hs : List ATxMeta) (s : Nat) : Val :=
-  col (selectFirst hs (fun h => Val.bool (h.txSeq == s)) [{ get := fun h => h.revision, desc := true }]) (fun h => Val.add h.revision (.int 1))
+  col (selectFirst hs (fun h => Val.bool (h.base == s)) [{ get := fun h => h.revision, desc := true }]) (fun h => Val.add h.revision (.int 1))
 
 def aTxUpdHist (A : ADB) (r : ATx) : ADB :=
-  { A with txMeta := A.txMeta ++ [{ seq := A.txMetaSeq, ledger := r.ledger, txSeq := r.seq, revision := nextRevT A.txMeta r.seq, date := r.updatedAt,
+  { A with txMeta := A.txMeta ++ [{ seq := A.txMetaSeq, ledger := r.ledger, base := r.seq, revision := nextRevT A.txMeta r.seq, date := r.updatedAt,
                                      md := r.md }],
            txMetaSeq := A.txMetaSeq + 1 }
 
@@ -239,11 +235,11 @@ def aDeleteTransactionMetadata (A : ADB) (l : String) (id : Int) (k : String) (d
 
 theorem insert_tx_hist_conc (A : ADB) (r : ATx) :
     insert_transaction_metadata_history (conc A) r.row = conc (aTxInsHist A r) := by
-  simp [insert_transaction_metadata_history, insert_transactions_metadata, Sql.insertRow, tbl_transactions_metadata, conc, aTxInsHist, ATxMeta.row, ATx.row]
+  simp [insert_transaction_metadata_history, insert_transactions_metadata, Sql.insertRow, tbl_transactions_metadata, conc, aTxInsHist, AMeta.rowT, ATx.row]
 
 theorem update_tx_hist_conc (A : ADB) (r : ATx) :
     update_transaction_metadata_history (conc A) r.row = conc (aTxUpdHist A r) := by
-  simp [update_transaction_metadata_history, insert_transactions_metadata, Sql.insertRow, tbl_transactions_metadata, conc, aTxUpdHist, ATxMeta.row, ATx.row,
+  simp [update_transaction_metadata_history, insert_transactions_metadata, Sql.insertRow, tbl_transactions_metadata, conc, aTxUpdHist, AMeta.rowT, ATx.row,
     selectFirst_map, nextRevT]
 
 theorem fire_tx_hist_conc (rows : List ATx) (A : ADB) :
@@ -612,7 +608,7 @@ def aTxInserted (A : ADB) (l : String) (tx : Tx) : ADB :=
 
 def aInsertTransaction (A : ADB) (l : String) (tx : Tx) (d : Val) (am : List (String × Meta)) : ADB :=
   let A2 := tx.postings.foldl (fun B p => aInsertPosting B (.int A.txSeq) l d tx.timestamp p am) (aTxInserted A l tx)
-  { A2 with txMeta := A2.txMeta ++ [{ seq := A2.txMetaSeq, ledger := l, txSeq := A.txSeq, revision := .int 0, date := .ts tx.timestamp, md := kvsOf tx.metadata }],
+  { A2 with txMeta := A2.txMeta ++ [{ seq := A2.txMetaSeq, ledger := l, base := A.txSeq, revision := .int 0, date := .ts tx.timestamp, md := kvsOf tx.metadata }],
             txMetaSeq := A2.txMetaSeq + 1 }
 
 theorem insert_transactions_conc (A : ADB) (t : ATx) :
@@ -623,9 +619,9 @@ theorem insert_transactions_conc (A : ADB) (t : ATx) :
   simp [insert_transactions, Sql.insertRow, tbl_transactions, conc, ATx.row]
 
 theorem insert_transactions_metadata_conc (A : ADB) (h : ATxMeta) :
-    insert_transactions_metadata (conc A) { h.row with seq := .null } =
-      (conc { A with txMeta := A.txMeta ++ [{ h with seq := A.txMetaSeq }], txMetaSeq := A.txMetaSeq + 1 }, ({ h with seq := A.txMetaSeq } : ATxMeta).row) := by
-  simp [insert_transactions_metadata, Sql.insertRow, tbl_transactions_metadata, conc, ATxMeta.row]
+    insert_transactions_metadata (conc A) { h.rowT with seq := .null } =
+      (conc { A with txMeta := A.txMeta ++ [{ h with seq := A.txMetaSeq }], txMetaSeq := A.txMetaSeq + 1 }, ({ h with seq := A.txMetaSeq } : ATxMeta).rowT) := by
+  simp [insert_transactions_metadata, Sql.insertRow, tbl_transactions_metadata, conc, AMeta.rowT]
 
 /-- a `for … in select jsonb_array_elements(postings)` loop whose body refines `f` -/
 theorem forEach_postings {E : Type} (body : Val → DB × E → DB × E) (P : E → Prop) (f : ADB → Posting → ADB)
@@ -668,8 +664,8 @@ theorem insert_transaction_conc (A : ADB) (l : String) (tx : Tx) (d : Val) (am :
       simp [h1, h2, h3, h4, h5, insert_posting_conc])
     ⟨rfl, rfl, rfl, rfl, rfl⟩
   have ins2 := fun A2 => insert_transactions_metadata_conc A2
-    { seq := 0, ledger := l, txSeq := A.txSeq, revision := .int 0, date := .ts tx.timestamp, md := kvsOf tx.metadata }
-  simp only [ATxMeta.row] at ins2
+    { seq := 0, ledger := l, base := A.txSeq, revision := .int 0, date := .ts tx.timestamp, md := kvsOf tx.metadata }
+  simp only [AMeta.rowT] at ins2
   obtain ⟨db', e'⟩ := s'
   simp only at k1 k2 k3 k4
   subst k1
